@@ -280,7 +280,7 @@ func genC09Case(r *rand.Rand, idx int64, orders int) *c09Case {
 // ---------------------------------------------------------------------------
 // reference model: reachability with distance
 
-func setKey(s *ketoapi.SubjectSet) string {
+func c09SetKey(s *ketoapi.SubjectSet) string {
 	return subjKey(&Tup{SubjectSet: s})
 }
 
@@ -292,7 +292,7 @@ type c09Model struct {
 func newC09Model(ts []*Tup) *c09Model {
 	m := &c09Model{out: map[string]map[string]int{}, n: map[string]int{}}
 	for _, t := range ts {
-		p := setKey(&ketoapi.SubjectSet{Namespace: t.Namespace, Object: t.Object, Relation: t.Relation})
+		p := c09SetKey(&ketoapi.SubjectSet{Namespace: t.Namespace, Object: t.Object, Relation: t.Relation})
 		if m.out[p] == nil {
 			m.out[p] = map[string]int{}
 		}
@@ -368,7 +368,7 @@ func nodeFromProto(t *rts.SubjectTree) *c09Node {
 	case *rts.Subject_Id:
 		n.Key = "id:" + s.Id
 	case *rts.Subject_Set:
-		n.Key = setKey(&ketoapi.SubjectSet{Namespace: s.Set.GetNamespace(), Object: s.Set.GetObject(), Relation: s.Set.GetRelation()})
+		n.Key = c09SetKey(&ketoapi.SubjectSet{Namespace: s.Set.GetNamespace(), Object: s.Set.GetObject(), Relation: s.Set.GetRelation()})
 	}
 	for _, c := range t.Children {
 		n.Kids = append(n.Kids, nodeFromProto(c))
@@ -784,7 +784,7 @@ func runC09Case(run *runner, idx int64, c *c09Case, seen map[string]int) string 
 			return "inconclusive"
 		}
 		for ri, root := range c.roots {
-			rk := setKey(root)
+			rk := c09SetKey(root)
 			for di, d := range c.Depths {
 				eff := effDepth(d, global)
 				var engineCanon string
@@ -909,7 +909,7 @@ func (m *c09Mon) differential(env *Env) {
 	st, eng, _ := env.instrumented()
 	st.record = false
 	for ri, root := range m.c.roots {
-		rk := setKey(root)
+		rk := c09SetKey(root)
 		a := m.x.engine(root, 0)
 		if a.Timeout || a.Err != "" {
 			run.count("differential_skipped_no_tree_answer", 1)
@@ -976,7 +976,7 @@ func (m *c09Mon) reportIncomplete(env *Env) {
 	sort.Strings(sigs)
 	for _, sig := range sigs {
 		p := m.toShrink[sig]
-		rk := setKey(p.root)
+		rk := c09SetKey(p.root)
 		eff := effDepth(p.depth, p.global)
 		det := map[string]any{"root": rk, "request_depth": p.depth, "global": p.global, "effective": eff, "insertion": p.order, "tree": trunc(p.tree, 3000)}
 		for k, v := range p.f.Detail {
